@@ -1,6 +1,7 @@
 # C18 -- each request receives its own response, whatever the concurrency and ordering.
 # spec/ScCorr: callers / dispatcher / handler table / request-id counter with wrap / scripted
-# server (reorder, no answer, duplicate, unsolicited, wrong type, service fault).
+# server (reorder, no answer, duplicate, unsolicited, wrong type, service fault, the request echoed
+# back under its id = a well-formed message that is not a response).
 #  1. TLC proves InvOwnResponse, InvNoShare, InvTypeError, InvFaultError (+ the C19 invariants of
 #     the same module) for every interleaving of the bounded contract model.
 #  2. Deviation demos (handler table keyed by id % 2, type check removed) must violate them.
@@ -80,12 +81,12 @@ def body(run):
                       "beh": {"steps": [], "results": []}})
     run.log("TLC: %d states; %d scripts generated (%d classes), %d sampled, %d many-caller runs" % (
         run.cov["states"], len(rows), nclasses, len(cases) - len(stress), len(stress)))
-    results = run.go_run(exe[0], ["-prop", "C18"], cases=cases, timeout=run.pick(600, 2400), env=sc.race_env())
+    results = run.go_run(exe[0], ["-prop", "C18", "-budget", run.pick("6m", "35m")], cases=cases, timeout=run.pick(600, 2400), env=sc.race_env())
     if len(results) < len(cases):
         raise vf.Inconclusive("harness returned %d results for %d cases" % (len(results), len(cases)))
     run.absorb(results)
     for r in [r for r in results if r.get("status") == "inconclusive"][:3]:
-        run.log("inconclusive case: %s" % str(r.get("detail"))[:300])
+        run.log("inconclusive case: %s | %s" % (str(r.get("detail"))[:300], str((r.get("case") or {}).get("steps"))[:400]))
     # binding demonstration: corrupt the specification's expectation of a few cases -> must be rejected
     rnd = random.Random(run.seed)
     corrupted = []
